@@ -1030,10 +1030,16 @@ pub mod verif {
   // already open, so that the loop can be observed at the system-call boundary without
   // /dev/input and /dev/uinput.
   pub fn run_real_driver(keyboard_fd: std::os::unix::io::RawFd, writer_fd: std::os::unix::io::RawFd, tablet_fd: Option<std::os::unix::io::RawFd>, layout: Layout) -> Result<(), String> {
+    // The readers are made by their own `open` (through /proc/self/fd), not by naming their fields, so that this hook keeps
+    // compiling when a reader grows state of its own.
+    let fd_path = |fd: std::os::unix::io::RawFd| PathBuf::from(format!("/proc/self/fd/{}", fd));
     let rw = RW {
-      r: DevInputReader { fd: keyboard_fd },
+      r: DevInputReader::open(fd_path(keyboard_fd).as_path(), Exclusion::NoExclusion, true).map_err(|e| format!("Failed to open the keyboard descriptor: {}", e))?,
       w: DevInputWriter::verif_from_fd(writer_fd),
-      t: tablet_fd.map(|fd| TabletModeSwitchReader { fd })
+      t: match tablet_fd {
+        None => None,
+        Some(fd) => Some(TabletModeSwitchReader::open(fd_path(fd).as_path(), true).map_err(|e| format!("Failed to open the tablet descriptor: {}", e))?)
+      }
     };
     do_remapping_loop_one_device(&mut RealDriver { rw }, layout, false)
   }
